@@ -5,8 +5,8 @@ from ctypes import c_int, byref
 import gens, blk, compcases as cc
 from capi import Lib, Buf
 
-THEOREMS = ["C17_target_ge_bound", "C17_target_ge_bound_contract", "C17_fast_destSize", "C17_fast_fill_generic", "C17_hc_mid_destSize_strict", "C17_hc_chain_destSize", "C17_hc_opt_destSize"]
-CORRESPONDENCE = [cc.MID_CORR, cc.CHAIN_CORR, cc.CHAIN_SEARCH_CORR,
+THEOREMS = ["C17_target_ge_bound", "C17_target_ge_bound_contract", "C17_fast_destSize", "C17_fast_fill_generic", "C17_hc_mid_destSize_strict", "C17_hc_chain_destSize", "C17_hc_opt_destSize", "C17_hc_chain_destSize_strict", "C17_hc_opt_destSize_strict"]
+CORRESPONDENCE = [cc.MID_CORR, cc.CHAIN_CORR, cc.CHAIN_SEARCH_CORR, cc.CHAIN_DICT_CORR,
                   "Model.FastApi.compress_destSize == LZ4_compress_destSize / _destSize_extState (return value, consumed size, bytes, high-water mark)"]
 ORACLES = ["block", "mid", "chain"]
 RULE = ("inputs from the shared structured generators; EVERY targetDstSize 1..bound+1 for inputs <= 40 bytes, targets dense around each sequence boundary "
